@@ -295,7 +295,25 @@ def check_bins(case):
         viols.append((kind, 'ip=%s x=%s nbins=%d: avg %s expected %s' % (ip.tolist(), x.tolist(), nb, avg.tolist(), exp.tolist())))
     if not np.allclose(cent, centres):
         viols.append(('bins:centres', 'nbins=%d centres %s' % (nb, np.asarray(cent).tolist())))
-    return Outcome(cls='bins', transitions=1, viols=viols, nontrivial=0 < filled < nb)
+    trans = 1
+    if not viols and len(s) <= 3:
+        # values with trailing dimensions ([samples x k], [samples x a x b], a != b and a == b), and explicit unit weights:
+        # every trailing element is binned like the vector it is
+        for shp in ((2,), (2, 3), (2, 2)):
+            fac = 1.0 + np.arange(int(np.prod(shp))).reshape(shp)
+            xx = x.reshape((-1,) + (1,) * len(shp)) * fac
+            for w in (None, np.ones(len(s))) if len(shp) == 1 else (None,):     # (weights are per sample; with 3-d values numpy's average refuses them)
+                try:
+                    a2 = np.asarray(bin_by_phase(ip.copy(), xx.copy(), nbins=nb, weights=None if w is None else w.copy())[0], dtype=float)
+                except Exception as e:
+                    viols.append(('bins:raise:trailing-dims', 'ip=%s values of shape %r weights=%s raised %r' % (ip.tolist(), xx.shape, w is not None, e)))
+                    continue
+                trans += 1
+                want = exp.reshape((-1,) + (1,) * len(shp)) * fac
+                if a2.shape != want.shape or not np.allclose(a2, want, rtol=1e-12, atol=0, equal_nan=True):
+                    viols.append(('bins:trailing-dims', 'ip=%s values of shape %r weights=%s: bin means %s expected %s' % (
+                        ip.tolist(), xx.shape, w is not None, a2.tolist(), want.tolist())))
+    return Outcome(cls='bins', transitions=trans, viols=viols, nontrivial=0 < filled < nb)
 
 
 def quantity(q, phi):
